@@ -385,6 +385,9 @@ class PDFPageInterpreter:
     Reference: PDF Reference, Appendix A, Operator Summary
     """
 
+    # Object ids of the form XObjects that are being rendered, outermost first.
+    _active_forms: Tuple[int, ...] = ()
+
     def __init__(self, rsrcmgr: PDFResourceManager, device: PDFDevice) -> None:
         self.rsrcmgr = rsrcmgr
         self.device = device
@@ -1227,7 +1230,14 @@ class PDFPageInterpreter:
                         f"Ignoring Matrix of form XObject {xobjid!r} because {values!r} cannot be parsed as 6 floats"
                     )
                     matrix = MATRIX_IDENTITY
+            if xobj.objid is not None and xobj.objid in self._active_forms:
+                log.warning(
+                    f"Ignoring form XObject {xobjid!r} because it is invoked by itself"
+                )
+                return
             interpreter = self.dup()
+            if xobj.objid is not None:
+                interpreter._active_forms = (*self._active_forms, xobj.objid)
             # According to PDF reference 1.7 section 4.9.1, XObjects in
             # earlier PDFs (prior to v1.2) use the page's Resources entry
             # instead of having their own Resources entry.
